@@ -82,7 +82,7 @@ def all_generators():
     """(model class name, generator) of every protocol family present (harness/gen_<family>.py)"""
     import importlib
     gens = list(gen_tls.MODELLED_GENERATORS)
-    for family in ('ssh', 'dns', 'opp'):
+    for family in FAMILIES:
         try:
             mod = importlib.import_module('harness.gen_' + family)
         except ImportError:
@@ -90,6 +90,23 @@ def all_generators():
         gens.extend(mod.MODELLED_GENERATORS)
         FRAMING_MODELLED.update(getattr(mod, 'FRAMING_MODELLED', ()))
     return gens
+
+
+FAMILIES = ('ssh', 'dns', 'opp', 'ssl2')
+
+
+def all_raw_inputs():
+    """(model class name, fn(rng) -> bytes) of every family: wire inputs no compose() of the library produces
+    (other header forms, padding, non-canonical encodings); a family module exports them as RAW_INPUTS"""
+    import importlib
+    out = list(getattr(gen_tls, 'RAW_INPUTS', ()))
+    for family in FAMILIES:
+        try:
+            mod = importlib.import_module('harness.gen_' + family)
+        except ImportError:
+            continue
+        out.extend(getattr(mod, 'RAW_INPUTS', ()))
+    return out
 
 
 def modelled_object_cases(run, per_class, modelled_only=True, families=None):
@@ -159,6 +176,22 @@ def class_property_run(run, driver_ok, want, per_class, n_mut, truncations=0, su
         for v in variants:
             cases.append({'kind': 'cls', 'cls': name, 'data': hx(v), 'want': [w for w in want if w != 'C01'],
                           'framing': framing})
+    for name, gen in all_raw_inputs():
+        framing = name in FRAMING_MODELLED
+        for _ in range(per_class):
+            try:
+                b = bytes(gen(run.rng))
+            except Exception as exc:  # pylint: disable=broad-except
+                run.count('generator_errors', '{}:{}'.format(name, type(exc).__name__))
+                continue
+            run.count('raw_inputs', name)
+            variants = [b] + mutations(run.rng, b, n_mut)
+            if suffixes:
+                variants.append(b + bytes(run.rng.getrandbits(8) for _ in range(run.rng.randrange(1, 9))))
+            if truncations:
+                variants.extend(all_truncations(b, truncations))
+            for v in variants:
+                cases.append({'kind': 'cls', 'cls': name, 'data': hx(v), 'want': list(want), 'framing': framing})
     if cases:
         run.sample(cases[0])
         run.sample(cases[len(cases) // 2])
